@@ -120,9 +120,22 @@ def swSorted (s : SwLine) : Bool := strictlyIncreasing (s.ents.map (·.2.2))
 
 def entLt (a b : Int × Nat) : Bool := a.1 < b.1 || (a.1 == b.1 && a.2 < b.2)
 
+/-- the compressed runtime table is consistent: the slots of functions defined here (what `find_func_entry` returns for
+    a runtime index without NAME_INHERITED) are pairwise distinct, exist, and hold a function number of this program -/
+def runtimeTableOk (d : Dump) : Bool :=
+  let ct := ((d.kind "ct").head?).getD []
+  let nSlots := (csv ((((d.kind "ro").head?).getD []).headD "-")).length
+  let slotsF := (csv ((((d.kind "ro").head?).getD []).headD "-")).map (fun s => ((s.splitOn ":").getD 2 "").toNat?.getD 0)
+  let flags := csvNat ((((d.kind "fl").head?).getD []).headD "-")
+  let nfd := d.cfs.length
+  let defSlots := (List.range flags.length).filterMap (fun ri =>
+    if (flags.getD ri 0) % 2 == 1 then none else slotOf ct ri)
+  defSlots.all (fun s => s < nSlots && slotsF.getD s 99999 < nfd) && defSlots.eraseDups.length == defSlots.length
+
 /-- checks on any dump (fresh or reloaded): lookup tables in address order -/
 def wellFormed (tag : String) (d : Dump) : List String :=
   (if tableSorted d then [] else [s!"function-table-not-sorted {tag}"]) ++
+  (if runtimeTableOk d then [] else [s!"runtime-table-malformed {tag}"]) ++
   ((d.kind "sw").filterMap (fun l =>
     match parseSw l with
     | some s => if swSorted s then none else some s!"switch-table-not-sorted {tag} at={s.head}"
